@@ -88,7 +88,7 @@ structure TpmOK (env : Prog.Env) (o : AttObj) (h : Bytes) (res : Result) : Prop 
     -- AIK certificate requirements (§8.3.1)
     c.version = 3 ∧
     -- the SAN carries a directory name with a registered manufacturer, a model and a version (characterised by `C17.hardwareDetails_iff`)
-    (∃ exts details, env.answer (.sanView der) = .san exts ∧ Tpm.detailsFromSan exts = some details) ∧
+    (∃ details, Tpm.detailsFromSan (sanViews c) = some details) ∧
     [2, 23, 133, 8, 3] ∈ c.unknownEKUs ∧ c.isCA = false ∧
     res = ⟨"AttCA", der :: rest.map (·.1)⟩
 
